@@ -31,6 +31,18 @@ def task_grid(ctx, cfg, lead_shapes=((), (2,)), bilinear=False, analytic=True):
               fourier.real_basis, fourier.real_basis_with_zero_imag, fourier.quadrature_nodes)
   res = grids.resolved_mask(grid, cfg)
   ms = grid.modal_shape; ns = grid.nodal_shape
+  # (g) the code's mask and wavenumber tables are the documented triangular truncation (specification written in grids.spec_mask from the
+  #     documented layouts): every other clause quantifies over the coefficients this mask declares
+  smask = grids.spec_mask(cfg, ms)
+  mrow, lcol = grids.spec_modal_axes(cfg, ms)
+  ma, la = (np.asarray(t) for t in grid.modal_axes)
+  okm = bool(np.array_equal(np.asarray(grid.mask), smask)) and bool(np.array_equal(ma, mrow)) and bool(np.array_equal(la, lcol))
+  ctx.clause('g.mask_and_wavenumber_tables_are_the_documented_truncation', 'discharged' if okm else 'failed', config=dict(grid=name), queries=0, elements=int(smask.size))
+  if not okm:
+    diff = np.argwhere(np.asarray(grid.mask) != smask)[:5].tolist()
+    ctx.violation('g.mask_and_wavenumber_tables_are_the_documented_truncation', dict(config=dict(grid=name), kind='mask'),
+                  dict(mask_differs_at=diff, m_rows=ma.tolist(), m_rows_spec=mrow.tolist(), l_cols=la.tolist(), l_cols_spec=lcol.tolist()),
+                  f'{name}: Grid.mask / modal_axes differ from the documented triangular truncation (first differing mask slots {diff})')
   r2 = float(grid.radius) ** 2
   for lead in lead_shapes:
     conf = dict(grid=name, lead=list(lead))
